@@ -427,9 +427,26 @@ func (e *Exec) mapLookup(m *MapObj, k Value, vt types.Type) (Value, *Term) {
 	return e.zero(vt), tb.F
 }
 
+// logGlobalMap / logGlobalArray: see logGlobalWrite.
+func (e *Exec) logGlobalMap(m *MapObj) {
+	e.globalWrites++
+	old := make([]*MapEntry, len(m.Entries))
+	for i, en := range m.Entries {
+		c := *en
+		old[i] = &c
+	}
+	e.undo = append(e.undo, func() { m.Entries = old })
+}
+
+func (e *Exec) logGlobalArray(arr *ArrayV) {
+	e.globalWrites++
+	old := append([]Value(nil), arr.E...)
+	e.undo = append(e.undo, func() { copy(arr.E, old) })
+}
+
 func (e *Exec) mapUpdate(m *MapObj, k, v Value) {
 	if m.Frozen && !e.w.initializing {
-		panic(unsupported("write to package-level map"))
+		e.logGlobalMap(m)
 	}
 	if e.race != nil {
 		e.raceAccess(fmt.Sprintf("map%d", m.ID), true)
@@ -456,7 +473,7 @@ func (e *Exec) mapDelete(m *MapObj, k Value) {
 		return
 	}
 	if m.Frozen && !e.w.initializing {
-		panic(unsupported("delete from package-level map"))
+		e.logGlobalMap(m)
 	}
 	if e.race != nil {
 		e.raceAccess(fmt.Sprintf("map%d", m.ID), true)
@@ -586,10 +603,10 @@ func (e *Exec) appendOp(s *SliceV, src []Value, et types.Type) *SliceV {
 	}
 	need := s.Len + len(src)
 	if s.Base != nil && need <= s.Cap {
-		if s.Base.Obj.Frozen && !e.w.initializing {
-			panic(unsupported("append into package-level data"))
-		}
 		arr := sliceArr(s)
+		if s.Base.Obj.Frozen && !e.w.initializing {
+			e.logGlobalArray(arr)
+		}
 		for i, v := range src {
 			arr.E[s.Off+s.Len+i] = copyVal(v)
 		}
@@ -674,11 +691,11 @@ func (e *Exec) callBuiltin(b *ssa.Builtin, args []Value, call *ssa.Call) (Value,
 			n = len(src)
 		}
 		if n > 0 {
-			if d.Base.Obj.Frozen && !e.w.initializing {
-				panic(unsupported("copy into package-level data"))
-			}
 			tmp := append([]Value(nil), src[:n]...)
 			arr := sliceArr(d)
+			if d.Base.Obj.Frozen && !e.w.initializing {
+				e.logGlobalArray(arr)
+			}
 			for i := 0; i < n; i++ {
 				arr.E[d.Off+i] = copyVal(tmp[i])
 			}
